@@ -689,3 +689,46 @@ def rule_optional_truthiness(ctx, R, modules, what):
                                f"`{norm(x)[:80]}` uses `{t.id}` as a truth value: an explicit 0 / 0.0 (or an empty array) is treated as 'not given'; {what}", x, evidence=True)
     ctx.instance(R, 0)
     ctx.ob(R, "darsia", f"{n} function(s) with optional non-container parameters scanned for truth-value tests", True, "", None)
+
+
+def rule_extent_keywords(ctx, R):
+    """Image(height=, width=, depth=): the three keywords address the first, second and third matrix axis (documented in the constructor);
+    folded for 2 and 3 dimensions on one token per keyword."""
+    from ..fold import Folder, Obj, Opaque, Raised, Refuse, fold_paths
+    from ..terms import nf
+
+    ctx.rule(R, "extent keywords: Image(height=H, width=W[, depth=D]) stores dimensions = [H, W(, D)] -- matrix axes 0, 1, 2 in this order, in "
+             "every dimension (the voxel sizes, the grid and every face area are derived from this list)")
+    m = ctx.model
+    init = m.method(m.cls("darsia.image.image", "Image"), "__init__")
+    for d in (2, 3):
+        ctx.instance(R)
+        toks = {"height": Opaque("float", "HEIGHT"), "width": Opaque("float", "WIDTH")}
+        if d == 3:
+            toks["depth"] = Opaque("float", "DEPTH")
+
+        def run(decide, d=d, toks=toks):
+            shape = tuple(Opaque("int", f"N{i}") for i in range(d))
+            img = Opaque("ndarray", "IMG", {"shape": shape, "dtype": Opaque("dtype", "DT")})
+            so = Obj("self", {"__class__": "Image"})
+            fo = Folder(symbolic=True)
+            fo.decider = decide
+            fo.func_stack.append(init.node)
+            fo.fold_all_methods = True
+            fo.overrides = {"warn": lambda a, k_: None, "logger.debug": lambda a, k_: None, "warnings.warn": lambda a, k_: None}
+            fo.call(init.node, [so, img], {"space_dim": d, "indexing": "ijk"[:d], "scalar": True, "series": False, **toks})
+            return so.fields.get("dimensions")
+        title = f"dim {d}: height / width" + (" / depth" if d == 3 else "") + " are the extents of matrix axes 0, 1" + (", 2" if d == 3 else "")
+        try:
+            paths = [(log, r) for log, r, e in fold_paths(run, max_paths=16) if e is None]
+        except Refuse as e:
+            ctx.ob(R, init.qname, title, False, f"fold of the constructor not found to be possible: {e}", init.node)
+            continue
+        if not paths:
+            ctx.ob(R, init.qname, title, False, "fold of the constructor not found to be possible on any path", init.node)
+            continue
+        want = [toks["height"], toks["width"]] + ([toks["depth"]] if d == 3 else [])
+        bad = [r for _, r in paths if not (isinstance(r, list) and len(r) == d and all(x is y for x, y in zip(r, want)))]
+        perm = bad and isinstance(bad[0], list) and len(bad[0]) == d and all(any(x is y for y in want) for x in bad[0])
+        ctx.ob(R, init.qname, title, not bad, (f"dimensions = {nf(bad[0])[:80]}" + (": the keywords are assigned to other axes" if perm else " -- extents not found in this form")) if bad else "", init.node, evidence=bool(perm))
+    ctx.floor(R, 2)
